@@ -28,7 +28,10 @@ CLAIMED = {
             'nothing_happens: when it raises, no code ran and configuration, memory and queues are untouched. ' + TIE, '§6 C04'),
     'C05': ('Lean 4 proof: queue insertion/selection laws (sortedness invariant, FIFO among equal due times, internal first, never early/late) + correspondence',
             'insert_keeps_order, insert_position, insert_exactly_once, head_is_due_first, selection_rule, consumption_removes_exactly_one, '
-            'due_event_is_selected: for all queues, times and events. ' + TIE, '§6 C05'),
+            'due_event_is_selected: for all queues, times and events; step_conserves_events (every outcome of execute_once: queues stay ordered, '
+            'at most one due entry consumed, internal queue after + consumed = before + one entry per event in _sent_events) and '
+            'history_conserves_events (every interleaving of queue() and execute_once on a closed interpreter: nothing lost, duplicated or invented), '
+            'for listeners that do not raise. ' + TIE, '§6 C05'),
     'C06': ('Lean 4 proof: history memory written by exits only, restore step = recorded memory sorted parents-first, via the refinement theorem + correspondence',
             'restore_step, restored_exactly_parents_first, exit_records_shallow/deep, record_kept(_steps), run_applies_the_steps, idle_keeps_memory: '
             'for every chart, configuration, memory and micro-step sequence. ' + TIE, '§6 C06'),
@@ -61,7 +64,9 @@ CLAIMED = {
             'state_errors_are_statechart_errors. The YAML text layer (ruamel load) and the schema library are modelled by their semantics on the '
             'shapes SCHEMA uses. ' + TIE, '§6 C12'),
     'C13': ('Lean 4 proof: time frame relation over execute_once (time = sampled clock value throughout, carried by step started / MacroStep / queue) + correspondence',
-            'time_is_the_sampled_value, macrostep_time, step_started_carries_it, queue_keeps_time for all outcomes. ' + TIE, '§6 C13'),
+            'time_is_the_sampled_value, macrostep_time, step_started_carries_it, queue_keeps_time for all outcomes; after/idle_semantics, guard_sees, '
+            'entry_records_times; times_written_only_by_steps (every outcome: a recorded entry/idle time changes only to the step time; a state active '
+            'afterwards kept its entry time or got the step time) and active_states_have_entry_time over every history. ' + TIE, '§6 C13'),
     'C14': ('Lean 4 proof over an ordered field (Mathlib): SimulatedClock time is monotone, exact, frozen when stopped + correspondence over rationals',
             'monotone, step_never_backwards, reject, assign_exact, stopped_still, rate, stop_freezes for every op sequence; the tie drives '
             'SimulatedClock with a scripted time source and compares exact rationals. Wall-clock reading itself is outside the model.', '§6 C14'),
